@@ -298,7 +298,8 @@ def line_family(seed, thorough):
     rs = np.random.RandomState(3000 * seed + 1)
     yield 'chain3d', rs.randn(6, 3), [(0, 1), (2, 1), (2, 3), (4, 3), (4, 5)]
     yield 'graph3d', rs.randn(7, 3), [(0, 1), (1, 2), (2, 0), (2, 3), (3, 4), (5, 3), (6, 3), (0, 6)]
-    yield 'chain2d', rs.randn(5, 2), [(0, 1), (1, 2), (3, 2), (3, 4)]
+    # 2-D input: a finished mesh has 3-D vertices (C02), so the reference geometry is the input padded with z = 0
+    yield 'chain2d', np.hstack([rs.randn(5, 2), np.zeros((5, 1))]), [(0, 1), (1, 2), (3, 2), (3, 4)]
 
 
 def transforms(thorough):
